@@ -14,11 +14,11 @@ META = {
               'order i*cdim_y*cdim_z + j*cdim_z + k that get_cid computes, and add_parts bins a position by floor((x - anchor)/width*cdim) per axis — the same partition',
         'R2': 'pruning bounds: a cell is skipped only if its clamped distance (componentwise clamp of the query into the cell) exceeds the current k-th best; the search stops only when '
               '(distance to the own cell\'s nearest face + r * min over axes of the cell width)^2 exceeds the k-th best; the heap is a max-heap on the squared distance and results are '
-              'popped into positions k-1..0',
+              'popped into positions k-1..0; the particle itself never reaches the heap and nothing is searched for k == 0',
         'R4': 'sphere through k boundary points: from_boundary_points dispatches k = 2, 3, 4 to the two/three/four-point constructors with the points in order (C19.R6-R8: they pass through '
               'their points), returns the point itself with radius 0 for k = 1 and the empty sphere for k = 0',
         'R5': 'Welzl recursion shape: base case (no points left or four boundary points) returns the sphere through the boundary; otherwise one point is taken off, the rest is solved, '
-              'the point is added to the boundary and the rest re-solved exactly when the solution does not contain it, and both vectors are restored before returning',
+              'the point is added to the boundary and the rest re-solved exactly when the solution does not contain it (under no further condition), and both vectors are restored before returning',
         'R6': 'Epos6: the initial sphere is grown over ALL inputs — points by Sphere::extend (C19.R9), spheres by R += d, c -= d*(c - s.c)/dist with d = (dist - R + s.r)/2 when d > 0, which is '
               'the smallest sphere containing the old sphere and the given one (R\' == R + d == dist - d + s.r)',
         'R3': 'ring enumeration: ring r consists of all offsets in [-r, r]^3 with Chebyshev norm exactly r that map to a valid cell',
@@ -487,6 +487,51 @@ def r2(ctx, F, rule, sfx):
         inv = dict(free_txt)
         ctx.check(rule, 'cell-examined-unless-bound-exceeded' + sfx, not badrows, ('a ring cell is not examined although its bound does not exceed the k-th best when [%s]%s' % (badrows[0], ''.join('; %s is %s' % (n, inv[n][:120]) for n in sorted(inv) if n in badrows[0]))) if badrows else 'particles of a ring cell are examined in every row without (heap full and k-th best < cell bound)',
                   'a non-empty ring cell is skipped only when heap full and k-th best d^2 < min_distance_squared(cell)', w, key_extra='skip-only')
+    # "its k nearest OTHER particles", "all 0 <= k < n": the particle itself never reaches the heap, and for k == 0 no ring is searched at all
+    # (with an empty heap `h.len() == k` holds at once and the k-th best is asked of an empty heap)
+    def rows_reaching(events, forced):
+        fr = {}
+
+        def cls(leaf):
+            if leaf.op == 'cmp':
+                op, a, b = leaf.args
+                ta, tb = repr(a), repr(b)
+                if ta.endswith('.id') and tb.endswith('.id') and op in ('==', '!='):
+                    return ('SELF', op == '==')
+                if {ta, tb} == {'k', '0'} and op in ('==', '!='):
+                    return ('K0', op == '==')
+            d = dtab.is_discr_eq(leaf)
+            if d is not None and '::next(' in repr(d[0]):
+                return ('const', (d[1] == 1) == d[2])
+            k_ = leaf.key()
+            if k_ not in fr:
+                fr[k_] = 'Y%d' % len(fr)
+            return (fr[k_], True)
+        for e in events:
+            for c in e.guard:
+                for lf in dtab.b_leaves(c).values():
+                    cls(lf)
+        if len(fr) > 12:
+            raise AnalysisIncomplete('knn: %d independent conditions on the way to the heap' % len(fr))
+        T3 = dtab.Table(['SELF', 'K0'] + sorted(set(fr.values())), cls)
+        hits = []
+        for env in T3.rows():
+            if all(env[k_] == v_ for k_, v_ in forced.items()):
+                val = T3.valuation(env, [])
+                if any(dtab.conj(e.guard, val) for e in events):
+                    hits.append(dtab.fmt_env({k_: v_ for k_, v_ in env.items() if v_}))
+        return hits
+    heap_mut = [e for e in ip.events if e.body is kb and e.callee and re.search(r'BinaryHeap(::<[^>]*>)?::push$|PeekMut', e.callee)]      # (every replacement pushes; the final drain pops)
+    if not heap_mut:
+        raise AnalysisIncomplete('knn: no heap insertion found')
+    hits = rows_reaching(heap_mut, {'SELF': True})
+    ctx.check(rule, 'own-particle-never-a-candidate' + sfx, not hits, ('the heap is changed for the particle itself when [%s]' % hits[0]) if hits else '%d heap operations, none reachable with ngb.id == part.id' % len(heap_mut),
+              'candidates are the OTHER particles: nothing is pushed / replaced when the ids are equal', w, key_extra='self-candidate')
+    rings = [e for e in ip.events if e.body is kb and e.callee and strip_generics(e.callee).endswith('Space::get_r_ring')]
+    if rings:
+        hits = rows_reaching(rings + peeks, {'K0': True})
+        ctx.check(rule, 'nothing-searched-for-k-zero' + sfx, not hits, ('a ring is searched / the k-th best is read for k == 0 when [%s]' % hits[0]) if hits else 'no ring is enumerated and no k-th best is read when k == 0',
+                  'k == 0 leaves the search at once (an empty heap has no k-th best)', w, key_extra='k0')
     # heap order
     cmpb = [b for b in F.bodies if b.get('impl_trait') == 'std::cmp::Ord' and b['path'].endswith('::cmp') and 'knn' in b['path']]
     if len(cmpb) == 1:
